@@ -98,7 +98,13 @@ def isclose(a, b, rel_tol=1e-09, abs_tol=0.0):
     elif hasattr(b, 'isclose'):
         return b.isclose(a, rel_tol, abs_tol)
     elif isinstance(a, Number):
-        return _isclose(a, b, rel_tol, abs_tol)
+        try:
+            return _isclose(a, b, rel_tol, abs_tol)
+        except TypeError:
+            # b is not a number
+            raise lena.core.LenaTypeError(
+                "isclose doesn't support {} and {}".format(a, b)
+            )
     elif isinstance(a, (list, tuple)):
         for ind, el in enumerate(a):
             if not isclose(el, b[ind], rel_tol, abs_tol):
